@@ -1115,7 +1115,7 @@ impl Dhcp {
     }
 
     pub fn get_broadcast_flag(&self) -> bool {
-        self.flags & 0b1000_0000 != 0
+        self.flags & 0b1000_0000_0000_0000 != 0
     }
 }
 
